@@ -63,7 +63,7 @@ func inspectAll(ts []tensor.Tensor) string {
 	for _, t := range ts {
 		flat, nesting, dims, rect, _ := tensor.VerifInspect(t)
 		tr, dirty, g, targets, _ := tensor.VerifGradState(t)
-		fmt.Fprintf(&b, "%v|%v|%v|%v|%v|%v|%v|%d;", flat, nesting, dims, rect, tr, dirty, g != nil, len(targets))
+		fmt.Fprintf(&b, "%v|%v|%v|%v|%v|%v|%v|%d|%s;", flat, nesting, dims, rect, tr, dirty, g != nil, len(targets), tensor.VerifScalarFields(t))
 	}
 	return b.String()
 }
@@ -197,6 +197,35 @@ func c20Bodies() []c20Body {
 			e3 := tensor.BackPropagate(s)
 			return []string{obsT(m, e1), fmt.Sprint(e3), obsT(w.Gradient(), nil)}
 		}},
+		{name: "privategraph3", run: func(f *c20Fixture, y func()) []string {
+			// private graphs in which the shared UNTRACKED tensor is itself a back-edge
+			// target (Concat / ElMax / ElMin / Patch do not copy their operands)
+			w := rt.Make(&ref.T{Shape: []int{2, 2}, V: []float64{0.9, -1.1, 2.2, 0.4}}, true)
+			y()
+			c, e1 := tensor.Concat([]tensor.Tensor{w, f.u}, 0)
+			if e1 != nil {
+				return []string{obsT(c, e1)}
+			}
+			y()
+			mx, e2 := w.ElMax(f.u)
+			mn, e3 := f.u.ElMin(w)
+			if e2 != nil || e3 != nil {
+				return []string{obsT(mx, e2), obsT(mn, e3)}
+			}
+			y()
+			p, e4 := f.u.Patch([]tensor.Range{{From: 0, To: 1}}, must(w.Slice([]tensor.Range{{From: 1, To: 2}})))
+			if e4 != nil {
+				return []string{obsT(p, e4)}
+			}
+			y()
+			eb1 := tensor.BackPropagate(c)
+			y()
+			s, _ := mx.Add(mn)
+			eb2 := tensor.BackPropagate(s)
+			y()
+			eb3 := tensor.BackPropagate(p)
+			return []string{obsT(c, nil), obsT(s, nil), obsT(p, nil), fmt.Sprint(eb1, eb2, eb3), obsT(w.Gradient(), nil)}
+		}},
 		{name: "graphonparam", run: func(f *c20Fixture, y func()) []string {
 			// graph construction on the shared tracked parameter (no back-propagation)
 			y()
@@ -288,7 +317,7 @@ func c20Scenarios(thorough bool) []c20Scenario {
 		}
 	}
 	if thorough {
-		for _, tr := range [][]int{{0, 1, 6}, {4, 5, 8}, {6, 7, 11}, {2, 3, 11}, {11, 11, 11}, {4, 6, 6}, {9, 10, 6}} {
+		for _, tr := range [][]int{{0, 1, 6}, {4, 5, 9}, {6, 7, 8}, {2, 3, 12}, {12, 12, 12}, {4, 6, 6}, {10, 11, 8}} {
 			out = append(out, c20Scenario{tr})
 		}
 	}
